@@ -9,13 +9,24 @@ def run(tier):
     c.add_tlc(r, "create_world argument combinations; refinement mapping onto World actions")
     res = replay.replay(exe, r.behaviours, shards=16, timeout_s=120)
     c.add_replay(res, "every C / wrapper action next to the World action it maps to, bitwise")
+    quick = tier != "thorough"
+    h = tlc.run("CApi.tla", "CApi_hist.cfg", workers=8, timeout=1800, simulate=25 if quick else 1500, depth=60, seed=c.seed)
+    c.add_tlc(h, "wrapper life-cycle machine (simulated histories): create / release / properties / single-property calls / sizes on two handles")
+    hb = list(dict.fromkeys(h.behaviours))
+    if len(hb) < 10: raise tlc.SetupError("the life-cycle machine emitted no histories")
+    hres = replay.replay(exe, hb, shards=16, timeout_s=120)
+    hres.n = len(hb)
+    c.add_replay(hres, "histories of wrapper calls, each next to the World call on the twin handle, bitwise")
+    c.coverage["histories"] = len(hb) - 1
     c.sample(r.behaviours[0][:2500] + "...")
     c.coverage["exhaustive"] = True
-    c.coverage["distinct_nontrivial"] = res.stats.get("by_check", {}).get("bits", 0)
+    c.coverage["distinct_nontrivial"] = res.stats.get("by_check", {}).get("bits", 0) + hres.stats.get("by_check", {}).get("bits", 0)
     c.coverage["rule"] = ("create_world / wrapper constructor with every combination of {C API, C++ wrapper} x {null, non-null flag pointer} x "
                           "{no directory, multi-character relative directory} x 5 seeds (1, 2, 1000, 2^31-1, 2^32+5); then every query "
                           "function at 15 points (2D and 3D) x property lists, each next to the native call it must equal bit for bit; the world "
                           "contains random composition and random grains models so the seed is observable; the directory is observed through the "
-                          "schema file the constructor writes. non-trivial = side-by-side comparisons made")
+                          "schema file the constructor writes; plus simulated histories (about 20 wrapper calls each) of the life-cycle machine: two wrapper "
+                          "handles bound to {C, C++} x {Cartesian, spherical document} x 3 seeds, created, queried (5 property lists, 4 single-property "
+                          "entry points, 2D and 3D, 4 probes), sized and released in any order. non-trivial = side-by-side comparisons made")
     c.assumptions += ["the random models make replies depend on the seed and on the number of earlier queries, which are identical on both sides"]
     return c.finish()
